@@ -295,8 +295,16 @@ def run_stream(name, tier, seed, replay_file=None, model=True, timeout=3000, ext
     e["HT_BUILD"] = BUILD
     if extra_env:
         e.update(extra_env)
+    # scratch space of the harness (data dirs, ftp roots, rotated files): under build/, removed after the stream
+    scratch = os.path.join(BUILD, "tmp", "%s-%d" % (name, os.getpid()))
+    shutil.rmtree(scratch, ignore_errors=True)
+    os.makedirs(scratch, exist_ok=True)
+    e["TMPDIR"] = scratch
     try:
-        rc, so, se, dt = run(cmd, env=e, timeout=timeout)
+        try:
+            rc, so, se, dt = run(cmd, env=e, timeout=timeout)
+        finally:
+            shutil.rmtree(scratch, ignore_errors=True)
     except subprocess.TimeoutExpired:
         res.error = "harness stream %s timed out after %ds" % (name, timeout)
         return res
